@@ -5,9 +5,9 @@ CONFIG = {
         "name": "txpool", "pkg": "./data/pools/", "run": "^TestVerifC44$",
         "files": ["data/pools/zz_verif_c44_test.go"],
         "util": [("data/pools", "pools")],
-        "env": {"quick": {"VERIF_C44_N": 60, "VERIF_C44_OPS": 40, "VERIF_C44_SP": 1, "VERIF_C44_SPH": 3, "VERIF_C44_STALE": 1},
-                "thorough": {"VERIF_C44_N": 1500, "VERIF_C44_OPS": 60, "VERIF_C44_SP": 5, "VERIF_C44_SPH": 5, "VERIF_C44_STALE": 12},
-                "search": {"VERIF_C44_N": 300, "VERIF_C44_OPS": 50, "VERIF_C44_SP": 2, "VERIF_C44_SPH": 4, "VERIF_C44_STALE": 2}},
+        "env": {"quick": {"VERIF_C44_N": 60, "VERIF_C44_OPS": 40, "VERIF_C44_SP": 1, "VERIF_C44_SPH": 3, "VERIF_C44_STALE": 1, "VERIF_C44_ACCUM": 1},
+                "thorough": {"VERIF_C44_N": 1000, "VERIF_C44_OPS": 60, "VERIF_C44_SP": 5, "VERIF_C44_SPH": 5, "VERIF_C44_STALE": 12, "VERIF_C44_ACCUM": 1},
+                "search": {"VERIF_C44_N": 300, "VERIF_C44_OPS": 50, "VERIF_C44_SP": 2, "VERIF_C44_SPH": 4, "VERIF_C44_STALE": 2, "VERIF_C44_ACCUM": 1}},
         "search_tier": "search",
         "timeout": {"quick": 900, "thorough": 3000, "search": 1500},
     }],
@@ -20,25 +20,37 @@ CONFIG = {
             "two blocks behind, a submission racing ahead of the notification); pool sizes 2..1000, fee factors 0..2^40, current consensus and a variant with "
             "1000-byte blocks (several pending whole blocks, ErrNoSpace, fee escalation). After every call the harness records PendingTxGroups, the pool's "
             "counters and, independently of the pool, the result of replaying the pending groups in order on a fresh evaluator started on the ledger's latest "
-            "block (and, before every Remember, whether that evaluator accepts the group on top of them). spec_ok (obs_hard_ok, proved sound in "
-            "C44_spec_ok_sound) reads only these observations: no txid twice, no committed txid pending and replay succeeds whenever the pool is in sync, "
-            "size <= max + pending singleton state proofs, admitted => the oracle accepted. A case is non-trivial when it has an admitted and a rejected "
+            "block (and, before every Remember, whether that evaluator accepts the group on top of them). spec_ok (obs_hard_ok / obs_trans_ok, proved sound in "
+            "C44_spec_ok_sound / C44_spec_trans_sound) reads only the inputs and these observations: no txid twice; whenever the calls made so far oblige the "
+            "pool to have processed the latest block (an OnNewBlock for a block at or above the round it worked on was delivered since the ledger last grew): "
+            "its evaluator is for latest+1, no committed txid is pending and the oracle replay succeeds; size <= max + pending singleton state proofs; "
+            "admitted => the oracle accepted; an admitted group is appended (and is a single state-proof transaction if the pool is then above its size), a "
+            "rejected one changes nothing, OnNewBlock only removes groups. Overflow classes: exactly one over -> finding stateproof_txn_overflows_pool_by_one, "
+            "two or more over -> stateproof_overflow_accumulates_across_blocks; any other excess is a violation. A case is non-trivial when it has an admitted and a rejected "
             "submission and a recomputation that dropped a group; distinct = distinct case lines.",
     "exhaustive": {"quick": False, "thorough": False},
     "explanation": "the theorems hold for every evaluator satisfying evaluator_ok, every ledger and every operation sequence (induction over the history); "
                    "the harness validates the transcription of transactionPool.go and of the payments-only evaluator model against the real code",
-    "assumptions": ["operations on the pool are atomic: Remember / OnNewBlock interleavings of goroutines are not modelled (checkPendingQueueSize runs "
-                    "before pool.mu is taken, so concurrent Remember calls can each pass the size check; out of scope of the sequential statement)",
+    "assumptions": ["operations on the pool are atomic: Remember / OnNewBlock interleavings of goroutines are not modelled. OBSERVED on the real code: "
+                    "checkPendingQueueSize runs before pool.mu is taken, so concurrent Remember calls each pass the size check -- 8 goroutines submitting to a pool "
+                    "with TxPoolSize=5 that held 4 transactions left 12 pending; 'never exceeds its configured size' fails under concurrent submission "
+                    "(outside the sequential statement proved and checked here)",
+                    "the ledger answers deterministically: OBSERVED on in-memory test ledgers (SQLite shared cache) a background tracker flush makes the evaluator's "
+                    "account lookups fail with 'database table is locked: accountbase'; recomputeBlockEvaluator treats every error as 'no longer valid' and drops "
+                    "the (valid) pending group (seen with a pending state proof on a 780-block ledger). The harness opens its ledgers with MaxAcctLookback=2048 so "
+                    "that no flush happens during a history (VERIF_C44_DISK=1 uses on-disk WAL ledgers with the default lookback instead)",
                     "the block evaluator satisfies evaluator_ok: blockTxBytes only decides between acceptance and ErrNoSpace, an accepted group has "
                     "pairwise distinct unseen txids which are seen afterwards (proved for the evaluator model, compared with the real BlockEvaluator on every case)",
                     "every evaluator the ledger starts rejects the txids committed so far (env_ok in C44_no_committed; this is property C11); proved for the model ledger",
                     "round numbers stay far below 2^64 (Round() + numPendingWholeBlocks does not wrap); txids are collision free",
                     "test ledgers: rewards rate 0, accounts hold only MicroAlgos (senders are never online accounts); state proofs submitted by the harness are "
-                    "cryptographically valid, only their sequencing is modelled; tracker flushes are disabled (MaxAcctLookback) because the in-memory shared-cache "
-                    "SQLite of test ledgers lets a background flush fail concurrent evaluator lookups ('database table is locked')"],
+                    "cryptographically valid, only their sequencing is modelled",
+                    "checkPendingQueueSize sets stateproofOverflowed BEFORE the group is validated: an invalid singleton state-proof-typed group submitted to a "
+                    "full pool consumes the allowance and the next valid state proof is rejected until the next block (observed; rejecting more is allowed by the property)"],
     "trusted_base": ["modelled: data/pools/transactionPool.go (coq/model/TxPool.v), BlockEvaluator.TransactionGroup for payments / state-proof transactions "
                      "(coq/model/TxPoolEval.v: WellFormed, Alive, checkDup, takeFee, Payment, MinBalance, byte budget, group id and pooled fee checks)",
                      "not modelled: AssembleBlock timing, telemetry, statusCache, Test(), signature verification (precondition of Remember)"],
     "level_note": "the size clause of the property text is false of the code: recorded findings stateproof_txn_overflows_pool_by_one and "
-                  "(C44_size_by_one_refuted, replayed on the real pool with VERIF_C44_ACCUM=1) stateproof_overflow_accumulates_across_blocks",
+                  "(C44_size_by_one_refuted; the scripted prefix of the state-proof histories replays the witness on the real pool on every run, VERIF_C44_ACCUM=1) "
+                  "stateproof_overflow_accumulates_across_blocks",
 }
